@@ -54,6 +54,10 @@ func (d *Decoder) read(buf []byte) {
 	if d.err != nil {
 		return
 	}
+	if len(buf) == 0 {
+		// nothing to read; a zero-length Read at the end of the input would answer io.EOF
+		return
+	}
 
 	n, err := d.buf.Read(buf)
 	if err != nil {
